@@ -885,7 +885,7 @@ def gen_memo(ctx: Ctx):
                 last = src(c.func).split(".")[-1]
                 if isinstance(c.func, ast.Name) and c.func.id in {a.arg for a in fn.args.args + fn.args.kwonlyargs}:
                     return True   # a factory handed in by the caller
-                return last[:1].isupper() or last in _CONTAINER_CTORS or last in ("int", "len", "tuple", "frozenset", "str", "bool", "cast", "isinstance") or last in _MUTATORS
+                return last.lstrip("_")[:1].isupper() or last in _CONTAINER_CTORS or last in ("int", "len", "tuple", "frozenset", "str", "bool", "cast", "isinstance") or last in _MUTATORS
 
             queries = [c for e in exprs for c in ast.walk(e) if isinstance(c, ast.Call) and not ctor_like(c)]
             if not queries:
@@ -1326,3 +1326,28 @@ def c20_15(ctx: Ctx):
                    "raises instead of returning the default - unlike a dict of dicts and unlike every other accessor of the class") if bad else "", key=f"OffsetMapping.{name}::default-before-subscript")
     if n < 2:
         raise AnalysisError(f"only {n} OffsetMapping accessors with a default found")
+
+
+_CONTENTS_WRITERS = {
+    "_modify.edit.edit_byte_interval": "the splice primitive (C01.1, C01.9: honours offsets beyond the initialized bytes)",
+    "intervalutils.split_byte_interval": "cuts an interval's tail off into a new interval",
+    "intervalutils.join_byte_intervals": "appends an interval (uninitialized tail filled first)",
+    "intervalutils.join_byte_intervals.insert_padding": "appends padding",
+}
+
+
+@rule("C01.10", ["C01", "C04", "C05"], "the bytes of an existing byte interval are written by the splice primitive and the interval split/join utilities only", 3)
+def c01_10(ctx: Ctx):
+    n = 0
+    for q, fi in sorted(ctx.repo.funcs.items()):
+        for st in walk_no_nested(fi.node):
+            if isinstance(st, (ast.Assign, ast.AugAssign)):
+                for t in (st.targets if isinstance(st, ast.Assign) else [st.target]):
+                    if isinstance(t, ast.Attribute) and t.attr == "contents":
+                        n += 1
+                        ctx.check(q in _CONTENTS_WRITERS, fi, st, f"`{src(st)[:50]}` in {q.split('.')[-1]}",
+                                  f"`{src(st)[:70]}` writes a byte interval's contents outside the splice primitive: `contents` holds the *initialized* bytes only, so a slice assignment at an offset "
+                                  "beyond them appends at the wrong place (and the offset-keyed expressions, aux entries and block offsets that edit_byte_interval keeps in step are not touched)",
+                                  key=f"{q}::contents-store")
+    if n < 3:
+        raise AnalysisError(f"only {n} stores to `.contents` found")
